@@ -51,8 +51,8 @@
 //! enforces: `float-varvar-cmp-ignored`, `int-var-in-float-linear`,
 //! `strict-cmp-int-operand-plus-one`; or the narrow matchers `float-eq-off-grid-optimum`,
 //! `float-eq-int-var-rounding`), then re-run with `set_root_lp_disabled(true)`: if that run is
-//! correct (or explained as above) the tag is `root-lp` / `root-lp-infeasible` /
-//! `root-lp-duplicate-variable`; anything else is `-`.
+//! correct (or explained as above) the tag is `root-lp` / `root-lp-infeasible`;
+//! anything else is `-`.
 //!
 //! Streams (`--mode`, default `all` = witness cases + the mix below by case number):
 //!   route  (30 %) decision logic only: every declared variable as objective, shapes that matter for the
@@ -459,6 +459,8 @@ fn entry_line(run: &Run) -> String {
         None => "panic".to_string(),
         Some(Ok(sol)) if run.fast => format!("fast {}", show_solution(sol, run.nvars)),
         Some(Err(_)) if run.fast => "fast-err".to_string(),
+        // the validator runs before the router (and again, on the same variables, before the search)
+        Some(Err(SolverError::InvalidDomain { .. })) => "invalid".to_string(),
         Some(_) => "search".to_string(),
     }
 }
@@ -500,7 +502,8 @@ fn do_rootlp(spec: &Spec, _is_max: bool, obj: usize, obs: Option<&LpObs>) -> Str
         let pending = m.pending_lp_constraints.clone();
         let (vars, props) = match m.verif_lower() {
             Ok(x) => x,
-            Err(_) => return "lower-err".to_string(),
+            // `prepare_for_search` runs the same validator as the entry points
+            Err(_) => return "invalid".to_string(),
         };
         let prop_system = props.extract_linear_system();
         let mut sys = LinearConstraintSystem::new();
@@ -1234,9 +1237,6 @@ fn fast_class(spec: &Spec, is_max: bool, obj: usize, fails: &[Fail]) -> &'static
     if eq_overwrites_domain(spec) && fails.iter().any(|f| f.kind == "bounds") {
         return "float-eq-const-overwrites-domain";
     }
-    if !spec.is_float(obj) {
-        return "fast-path-wrong-objective";
-    }
     if is_max && do_route(spec, true, obj).starts_with("declined") {
         return "fast-path-max-falls-into-min";
     }
@@ -1251,7 +1251,8 @@ fn fast_class(spec: &Spec, is_max: bool, obj: usize, fails: &[Fail]) -> &'static
             "fast-path-ignores-nonobjective-rows"
         } else {
             match p {
-                SPost::Lin(..) | SPost::Fluent(..) | SPost::FluentVV(..) => "fast-path-ignores-pending-rows",
+                // (the fast path declines while deferred constraints are waiting: repaired, unlisted)
+                SPost::Lin(..) | SPost::Fluent(..) | SPost::FluentVV(..) => "-",
                 SPost::PLin(..) => "fast-path-ignores-props-linear-rows",
                 SPost::Cmp(..) if extractable(p) => "fast-path-ignores-opposite-bounds",
                 SPost::Cmp(..) => "fast-path-unextracted-bound-shape",
@@ -1457,9 +1458,7 @@ fn oracle_run(out: &mut Out, l: usize, spec: &Spec, is_max: bool, obj: usize, ru
         // does the failure disappear (or reduce to a recorded search-path class) without the root LP?
         let r_nolp = rerun(fast_off, true);
         if non_lp(out, &r_nolp).is_some() {
-            // `to_lp_problem` keeps only the last coefficient of a variable that occurs twice in a row
-            let dup = spec.posts.iter().any(|p| { let mut v = p.vars(); v.sort(); !matches!(p, SPost::Cmp(..)) && v.windows(2).any(|w| w[0] == w[1]) });
-            return if dup { "root-lp-duplicate-variable".to_string() } else if matches!(r.res, Some(Err(_))) && !r.lp_applied { "root-lp-infeasible".to_string() } else { "root-lp".to_string() };
+            return if matches!(r.res, Some(Err(_))) && !r.lp_applied { "root-lp-infeasible".to_string() } else { "root-lp".to_string() };
         }
         "-".to_string()
     };
@@ -1616,6 +1615,13 @@ fn gen_spec(r: &mut Rng, out: &mut Out, for_oracle: bool) -> Spec {
                 };
                 posts.push(p);
             }
+        }
+    }
+    if !for_oracle && r.chance(1, 25) {
+        // reversed float bounds: the validator must answer before the router
+        let x = r.below(nv as u64) as usize;
+        if let SVar::F(lo, hi) = vars[x] {
+            if lo < hi { vars[x] = SVar::F(hi, lo); out.stat("gen.reversed-float-bounds"); }
         }
     }
     if !for_oracle {
@@ -1871,7 +1877,10 @@ fn malformed_run(out: &mut Out, l: usize, spec: &Spec, is_max: bool, obj: usize)
             out.fail(l, "C08", tag, "panic on a malformed model".to_string())
         }
         Some(Ok(_)) => {
-            let tag = if eq_overwrites_domain(spec) { "float-eq-const-overwrites-domain" } else if run.fast { "fast-path-skips-validation" } else { "-" };
+            // a comparison of two constants is a row on no variable at all: the router never looks at it
+            let const_row = spec.posts.iter().any(|p| matches!(p, SPost::Cmp(_, Opnd::C(_) | Opnd::K(_), Opnd::C(_) | Opnd::K(_))));
+            let valid_vars = spec.vars.iter().all(|v| match v { SVar::F(a, b) => a <= b, SVar::I(a, b) => a <= b });
+            let tag = if eq_overwrites_domain(spec) { "float-eq-const-overwrites-domain" } else if run.fast && const_row && valid_vars { "fast-path-ignores-nonobjective-rows" } else { "-" };
             out.fail(l, "C08", tag, format!("Ok(..) on a model with an empty domain / a false constant comparison (fast path: {})", run.fast));
         }
         Some(Err(_)) => out.stat("mal.Err"),
@@ -1982,6 +1991,7 @@ fn suite_witness(out: &mut Out) {
         ("lp-vertex-float", 2, vec![f(0.0, 4.0), f(0.0, 4.0)], vec![SPost::Lin(false, vec![1.0, 1.0], vec![0, 1], 4.0), SPost::Cmp(Rel::Ge, v(1), c(1.0))], vec![(true, 0)]),
         ("lp-duplicate-variable", 2, vec![f(-10.0, 10.0), f(0.0, 10.0)], vec![SPost::Lin(false, vec![-2.0, 1.0], vec![0, 0], -1.0), SPost::Lin(false, vec![1.0, 1.0], vec![0, 1], 20.0)], vec![(false, 0), (true, 0)]),
         ("eq-overwrites-domain", 2, vec![f(3.0, 12.25)], vec![SPost::EqImm(0, -7.25)], vec![(false, 0)]),
+        ("reversed-bounds", 6, vec![f(5.0, 1.0)], vec![], vec![(true, 0)]),
     ];
     for (name, digits, vars, posts, runs) in cases {
         let spec = Spec { digits, vars, posts };
